@@ -601,7 +601,7 @@ def settle(ctx, res, cases, stats):
     """model correspondence + attribution for a batch of observed cases"""
     aq = active_quirks(ctx)
     byq = findings_by_quirk(ctx)
-    reqs, idx = [], []
+    reqs, idx, sem_idx = [], [], []
     for ci, c in enumerate(cases):
         first = c.code[c.main]
         if c.prog is None or first.get("tree") is None:
@@ -616,12 +616,17 @@ def settle(ctx, res, cases, stats):
             r2 = dict(r)
             r2["quirks"] = []
             reqs.append(r2)
+        # the Lean reference semantics (QV.Sem.semProg) of the same tree
+        sem_idx.append((ci, len(reqs)))
+        reqs.append(dict(op="c01.semw", args=r["args"], ret=r["ret"], body=r["body"]))
     replies = ctx.model(reqs) if reqs else []
     model_of = {}
     if replies is not None:
         for ci, ri in idx:
             c = cases[ci]
             model_of[ci] = (replies[ri], replies[ri + 1] if suspicious(c) else None)
+        for ci, ri in sem_idx:
+            check_semw(res, cases[ci], replies[ri], model_of[ci][0], aq, stats)
     for ci, c in enumerate(cases):
         first = c.code[c.main]
         cj = case_json(c)
@@ -706,6 +711,57 @@ def settle(ctx, res, cases, stats):
         else:
             res.violation(cj, what, free=c.free, missing=c.missing, accept=c.accept_disagree,
                           events=(m or {}).get("events"))
+
+
+def check_semw(res, c, sem, m, aq, stats):
+    """the Lean reference semantics SemW (lean/QV/Model/Sem.lean, the one the theorem C01_expr speaks of) against
+    (a) the independent python oracle: every bit pysem claims (exact, or low bits of wrap-around arithmetic) must be
+        SemW's bit;  (b) the Lean translator model without quirks reached: all bits, every row (what C01_expr proves
+        on its fragment, observed on the wider one).  Rows where SemW gives no meaning (outside its fragment) are
+        counted, never compared."""
+    for k_ in ("semw_programs", "semw_defined_programs", "semw_rows", "semw_rows_undefined", "semw_claimed_bits",
+               "semw_model_rows"):
+        stats.setdefault(k_, 0)
+    if sem is None or "driver_error" in sem:
+        res.disagree(case_json(c), "Lean SemW: driver error", model=sem)
+        return
+    rows = sem.get("rows", [])
+    stats["semw_programs"] += 1
+    if any(r is not None for r in rows):
+        stats["semw_defined_programs"] += 1
+    stats["semw_rows_undefined"] += sum(1 for r in rows if r is None)
+    # (a) against pysem
+    if c.expected is not None and c.oracle == "ok" and len(c.expected) == len(rows):
+        for k, (exp, got) in enumerate(zip(c.expected, rows)):
+            if got is None:
+                continue
+            stats["semw_rows"] += 1
+            if len(got) != len(exp):
+                res.disagree(case_json(c, row=k), "Lean SemW: number of return bits differs from the python oracle",
+                             model=got, expected=len(exp))
+                return
+            bad = [i for i, e_ in enumerate(exp) if e_ is not None and (got[i] == "1") != e_]
+            stats["semw_claimed_bits"] += sum(1 for e_ in exp if e_ is not None)
+            if bad:
+                res.disagree(case_json(c, row=k, args=row_values(c.prog, k)),
+                             "Lean SemW differs from the python oracle (harness/pysem.py) on a claimed bit",
+                             model=got, expected="".join("?" if e_ is None else ("1" if e_ else "0") for e_ in exp),
+                             wrong_bits=bad)
+                return
+    # (b) against the Lean translator (only when no quirk site was reached: the table is then that of Quirks.none)
+    if m is not None and "error" not in m and "driver_error" not in m and m.get("table") is not None:
+        reached = {QUIRK_EVENT.get(q) for q in aq} & set(m.get("events", []))
+        if not reached and not m.get("free"):
+            mrows = table_rows(m["table"], len(m["retbits"]))
+            if len(mrows) == len(rows):
+                for k, (x, y) in enumerate(zip(mrows, rows)):
+                    if y is None:
+                        continue
+                    stats["semw_model_rows"] += 1
+                    if x != y:
+                        res.disagree(case_json(c, row=k), "Lean SemW differs from the Lean translator model "
+                                     "(the statement of C01_expr fails on this input)", model=x, semw=y)
+                        return
 
 
 def suspicious(c):
